@@ -588,3 +588,36 @@ def opLoop (st : St) (parts : List (List String)) : String :=
     | _, _, _, _ => "skip unresolved-input"
   | _ => "skip bad-record"
 
+
+/-- GW <tid> p <vid> | <path> | alias1|alias0|na|err|panic | getto=… cmp=… len=… cap=… deq=… loop=… | - -/
+def opAlias (st : St) (head pathToks aliasToks allocToks : List String) : String :=
+  match head, aliasToks with
+  | [_, tid, _form, vid], [a] =>
+    (match st.types[tid]?, st.vals[vid]?, parsePath pathToks with
+     | some n, some v, some (p, _) =>
+       if p.any (fun s => s.pf == .inexact) then "skip inexact-key" else
+       let cls := inAliasClass n v p
+       let model : String := match getM st.cfg n .ptr v p with
+         | .panic => "panic"
+         | .err => "err"
+         | .none => "na"
+         | .some _ _ =>
+           (match nav n v p with
+            | .found res false =>
+              if res.node.isLeaf && !res.val.strip.isNilPtr then
+                (match aliasN n v p true with | some true => "alias1" | some false => "alias0" | none => "na")
+              else "na"
+            | _ => "-")       -- the handed-out value is not the addressed leaf (a listed C01 finding): not judged here
+       let allocOk : Bool := !cls || allocToks == ["-"] ||
+         allocToks.all (fun t => match t.splitOn "=" with
+           | [k, c] => c == "0" || k == "loop" || k == "deq"
+           | _ => true)
+       if model == "-" then "skip not-the-addressed-leaf"
+       else if a == model then
+         (if cls && a != "alias1" then "model-viol " ++ model
+          else if !allocOk then "model-viol allocations " ++ " ".intercalate allocToks
+          else "agree")
+       else if cls && a != "alias1" then "dev-viol " ++ model
+       else "dev-ok " ++ model
+     | _, _, _ => "skip unresolved-input")
+  | _, _ => "skip bad-record"
